@@ -40,7 +40,7 @@ def GoodC (F : ValFam) (q : Nat) (t : List Char) (r : Res) : Prop := ∀ s₀, A
 
 /-- the tree builder maps over these pairs to these values -/
 def BuildsL (s₀ : List Char) (p : Nat) (ps : List Pair) (vs : List PValue) : Prop :=
-  ∀ bf, s₀.length - p < bf → ps.mapM (buildValue (envOf s₀) bf) = .ok (normVs vs)
+  ∀ bf, s₀.length - p < bf → ps.mapM (buildValue (envOf s₀) bf) = expVs vs
 
 theorem pV_rbrack (c : Bool) (r : List Tok) : pV P' c (.punct ']' :: r) = none :=
   pV_punct_other c ']' r (by decide) (by decide) (by decide)
@@ -50,7 +50,7 @@ theorem skipPos_ge (p : Nat) (s : List Char) : p ≤ skipPos p s := by unfold sk
 theorem chain_items {F : ValFam} {p : Nat} {s : List Char} {p' : Nat} {s' : List Char} {ps : List Pair}
     (h : Chain (GoodC F) p s p' s' ps) : ∀ s₀, At s₀ p s →
     ∃ vs, itemsV P' F.const (toks s) = (closeTok ']' (toks s')).map (fun r => (vs, r)) ∧ At s₀ p' s' ∧ p ≤ p' ∧
-      (finVs vs = true → BuildsL s₀ p ps vs) := by
+      BuildsL s₀ p ps vs := by
   induction h with
   | @stop p s hg =>
     intro s₀ hat
@@ -59,7 +59,7 @@ theorem chain_items {F : ValFam} {p : Nat} {s : List Char} {p' : Nat} {s' : List
       cases hp : pV P' F.const (toks (skipI s)) with
       | none => rfl
       | some x => obtain ⟨v, ts'⟩ := x; obtain ⟨s'', pr, e, -⟩ := hg'.ok hp; cases e
-    refine ⟨[], ?_, hat, Nat.le_refl _, fun _ bf _ => rfl⟩
+    refine ⟨[], ?_, hat, Nat.le_refl _, fun bf _ => by rw [expVs_nil]; rfl⟩
     rw [← toks_skipI s]
     by_cases hc : ∃ r, toks (skipI s) = .punct ']' :: r
     · obtain ⟨r, hr⟩ := hc
@@ -86,16 +86,16 @@ theorem chain_items {F : ValFam} {p : Nat} {s : List Char} {p' : Nat} {s' : List
         simp only [Option.bind_some]
         rw [← hts, hi]
         cases closeTok ']' (toks s3) <;> rfl
-      · intro hnf bf hbf
-        simp only [finVs, Bool.and_eq_true] at hnf
-        have h1 := hb hnf.1 bf (by rw [hst]; omega)
-        have h2 := hbl hnf.2 bf (by omega)
-        simp [List.mapM_cons, h1, h2, normVs, bind, Except.bind, pure, Except.pure]
+      · intro bf hbf
+        have h1 := hb bf (by rw [hst]; omega)
+        have h2 := hbl bf (by omega)
+        rw [List.singleton_append, List.mapM_cons, h1, h2, expVs_cons]
+        rfl
 
 theorem goodV_of_ev {F : ValFam} {s₀ : List Char} {q : Nat} {t s' : List Char} {p1 : Nat} {inner : Pair} {N : Nat}
     {v : PValue} (hev : EvR G0 c0 (.ident F.vName) q t N (.ok p1 s' [Pair.mk F.vName q p1 [inner]]))
     (hp : pV P' F.const (toks t) = some (v, toks s')) (hlt : s'.length < t.length)
-    (hb : finV v = true → Builds s₀ (Pair.mk F.vName q p1 [inner]) v) :
+    (hb : Builds s₀ (Pair.mk F.vName q p1 [inner]) v) :
     GoodV F s₀ q t (.ok p1 s' [Pair.mk F.vName q p1 [inner]]) := by
   obtain ⟨r, h1, h2⟩ := goodV_scalar hev hp hlt hb
   rw [← EvR.unique hev h1] at h2; exact h2
@@ -130,7 +130,7 @@ theorem build_list (F : ValFam) (hF : IsFam F) (s₀ : List Char) (q p5 p2 : Nat
   obtain ⟨bf, rfl⟩ : ∃ b, bf = b + 1 := ⟨bf - 1, by omega⟩
   have := hb bf (by simp [Pair.start] at hbf; omega)
   rcases hF with rfl | rfl <;>
-    simp [buildValue, Pair.inner, Pair.rule, famV, famC, this, normV, Except.map]
+    simp [buildValue, Pair.inner, Pair.rule, famV, famC, this, expV_list]
 
 theorem value_list_case (F : ValFam) (hF : IsFam F) (q : Nat) (t : List Char) (ht : TokStart t)
     (rest : List Char) (hl : lexToken t = some (.punct '[', rest)) (hts : toks t = .punct '[' :: toks rest)
@@ -209,7 +209,6 @@ theorem value_list_case (F : ValFam) (hF : IsFam F) (q : Nat) (t : List Char) (h
     obtain ⟨vs, hi, -, -, hbl⟩ := chain_items hch s₀ hat2
     refine goodV_of_ev hev' (v := .list vs) ?_ hl5 ?_
     · rw [hts, pV_lbrack, ← toks_skipI rest, hi, hcl]; rfl
-    · intro hnf
-      exact build_list F hF s₀ q _ (skipPos (q + 1) rest) ps vs (by have := skipPos_ge (q + 1) rest; omega)
-        (by have := hat2.len; omega) (hbl (by simpa [finV] using hnf))
+    · exact build_list F hF s₀ q _ (skipPos (q + 1) rest) ps vs (by have := skipPos_ge (q + 1) rest; omega)
+        (by have := hat2.len; omega) hbl
 end AGV.Lemmas.PegX
